@@ -31,7 +31,7 @@ package yqlib
 // lib.go, operator_booleans.go, candidate_node.go, operator_datetime.go: scalar readers
 
 //@ func parseInt64
-//@   props C15 C01 C11
+//@   props C15 C01 C06 C11
 //@   ensures @ok-iff (result2 == nil) == intOk(numberString)
 //@   ensures @value implies(result2 == nil, result1 == intOf(numberString))
 //@   ensures @format {C01} result0 == intFormat(numberString)
@@ -1059,6 +1059,7 @@ package yqlib
 //@   at GetMatchingNodes#1: assert @the-bound-value-is-computed-read-only {C08} arg1.DontAutoCreate && arg1.MatchingNodes == context.MatchingNodes && arg2 == originalExp.LHS.LHS
 //@   at GetMatchingNodes#2: assert @the-body-keeps-the-mode-and-inputs-of-its-scope {C08,C01} arg1.DontAutoCreate == context.DontAutoCreate && arg1.MatchingNodes == context.MatchingNodes && arg2 == originalExp.RHS
 //@   at GetMatchingNodes#3: assert @no-binding-no-loop {C01} arg1.DontAutoCreate == context.DontAutoCreate && arg1.MatchingNodes == context.MatchingNodes && arg2 == originalExp.RHS
+//@   at SetVariable: assert @a-binding-is-made-in-a-scope-of-its-own {C01} fresh(arg0.Variables) && arg0.Variables != context.Variables
 //@   loop 1:
 //@     invariant validCtx(context) && fresh(results) && nodeList(lhs.MatchingNodes)
 
